@@ -20,6 +20,7 @@
 #include <algorithm>
 #include <complex>
 #include <numeric>
+#include <type_traits>
 
 namespace bpp
 {
@@ -395,6 +396,12 @@ public:
     {
       vi = val;
       val += step;
+    }
+    // The by / 100 above absorbs rounding of a real step; as an integer division it let
+    // seq<int>(0, 99, 100) run to 100: an integer sequence never goes beyond 'to'.
+    if (std::is_integral<T>::value)
+    {
+      while (v.size() > 1 && (from < to ? v.back() > to : v.back() < to)) v.pop_back();
     }
 
     return v;
